@@ -1,6 +1,6 @@
 (* What a local (non-call, non-create) step of the reference interpreter leaves unchanged. *)
 From Coq Require Import ZArith List Bool Lia Arith.
-From HV Require Import Base.Word Spec.Evm.
+From HV Require Import Base.Word Spec.Evm Gen.GenJumpi Gen.GenBranch.
 Import ListNotations.
 Open Scope Z_scope.
 
@@ -81,3 +81,8 @@ Proof.
     unfold binop, unop, ternop, push, halt, do_log, copy_to_mem, next in H;
     crush H; inversion H; subst; try reflexivity; exact I.
 Qed.
+
+(* the insufficient-funds alternative is abandoned exactly when the solver answered `unsat`
+   (decision function regenerated from SEVM.handle_insufficient_fund_case) *)
+Lemma funds_fail_keep_eq : forall r, funds_fail_keep r = negb (r =? R_UNSAT).
+Proof. intros r. reflexivity. Qed.
